@@ -140,10 +140,17 @@ theorem drop_rowcount (env : Env) (d : DExpr) (ns : List String) (x res : DS)
     (hx : evalD env d = .ok x) (h : evalD env (.drop d ns) = .ok res) : res.rows.length = x.rows.length := by
   rw [drop_spec env d ns x hx] at h; cases h; simp
 
-theorem rename_spec (env : Env) (d : DExpr) (m : List (String × String)) (x : DS) (hx : evalD env d = .ok x) :
+theorem rename_spec (env : Env) (d : DExpr) (m : List (String × String)) (x : DS) (hx : evalD env d = .ok x)
+    (hn : (x.comps.map (renameOf m)).Nodup) :
     evalD env (.rename d m) = .ok (DS.mk (x.ids.map (renameOf m)) (x.meas.map (renameOf m))
       (x.rows.map (fun r => x.comps.map (fun n => (renameOf m n, r.get n))))) := by
-  simp [evalD, hx, bind, Except.bind, pure, Except.pure]
+  simp [evalD, hx, bind, Except.bind, pure, Except.pure, hn]
+
+/-- renaming two components to the same name is rejected. -/
+theorem rename_collision_rejected (env : Env) (d : DExpr) (m : List (String × String)) (x : DS)
+    (hx : evalD env d = .ok x) (hn : ¬ (x.comps.map (renameOf m)).Nodup) :
+    evalD env (.rename d m) = .error .type := by
+  simp [evalD, hx, bind, Except.bind, hn]
 
 /-- a component that rename does not list keeps its name. -/
 theorem rename_unlisted (m : List (String × String)) (n : String) (h : ∀ p ∈ m, p.1 ≠ n) : renameOf m n = n := by
@@ -221,7 +228,11 @@ theorem applyC_length_le (env : Env) (d : DExpr) (c : Clause) (x res : DS)
       | ok rows => rw [hm] at h; simp only [pure, Except.pure, Except.ok.injEq] at h; subst h; exact mapRows_length_le _ _ _ hm
   | keep ns => simp only [applyC] at h; rw [keep_spec env d ns x hx] at h; cases h; simp
   | drop ns => simp only [applyC] at h; rw [drop_spec env d ns x hx] at h; cases h; simp
-  | rename m => simp only [applyC] at h; rw [rename_spec env d m x hx] at h; cases h; simp
+  | rename m =>
+    simp only [applyC] at h
+    by_cases hn : (x.comps.map (renameOf m)).Nodup
+    · rw [rename_spec env d m x hx hn] at h; cases h; simp
+    · rw [rename_collision_rejected env d m x hx hn] at h; cases h
   | sub fix =>
     simp only [applyC, evalD, hx, bind, Except.bind] at h
     split at h
